@@ -46,6 +46,7 @@ type Trimmer struct {
 	structsTrimmed         int
 	fieldsTrimmed          int
 	extServices            []*parser.Service
+	extNeeded              map[*parser.Service]struct{}
 	PreservedFiles         []string
 	preserveFileStructs    map[*parser.StructLike]struct{}
 	preserveCache          map[*parser.StructLike]bool
@@ -259,6 +260,7 @@ func newTrimmer(files []string, outDir string) (*Trimmer, error) {
 	trimmer.preserveRegex = regexp.MustCompile(pattern)
 	trimmer.preserveCache = make(map[*parser.StructLike]bool, 200)
 	trimmer.keptPartCache = make(map[*parser.Thrift]bool, 200)
+	trimmer.extNeeded = make(map[*parser.Service]struct{})
 	return trimmer, nil
 }
 
